@@ -100,6 +100,7 @@ def check_siblings(F, rep):
         for variant in _variants(m):
             S = Session(F)
             S.ctx.expand_minmax = True
+            S.ctx.strict_pow_domain = True   # a lane-wise cbrt and pow(x, 1/3) are different functions on negative lanes
             vals = {}
             bad = False
             for st, bs in sorted(d.items()):
